@@ -7,6 +7,7 @@ package main
 // Nothing is written under --repo or --verif: evidence/replays of these runs go to a scratch directory.
 
 import (
+	"encoding/json"
 	"fmt"
 	"os"
 	"os/exec"
@@ -179,8 +180,26 @@ func selftest(repo, verif, only string) int {
 		}
 		os.WriteFile(p, []byte(strings.Replace(string(src), m.old, m.new, 1)), 0o644)
 		code, wall, note := run(m.id, m.suite, mrepo)
-		os.RemoveAll(mrepo)
 		row.got, row.wall, row.note, row.ok = fmt.Sprintf("exit %d", code), wall, note, code == 1
+		// the first replay files of the run must FAIL on the mutant and PASS on the unchanged tree
+		if code == 1 {
+			for n := 1; n <= 2; n++ {
+				rp := filepath.Join(sverif, "replays", "bounded", m.suite, fmt.Sprintf("%d.json", n))
+				onMutant, err1 := runReplay(rp, mrepo, scratch)
+				onOrig, err2 := runReplay(rp, repo, scratch)
+				switch {
+				case err1 != nil || err2 != nil:
+					row.ok = false
+					row.note += fmt.Sprintf("\n     replay %d: error %v %v", n, err1, err2)
+				case onMutant || !onOrig:
+					row.ok = false
+					row.note += fmt.Sprintf("\n     replay %d: passes on the mutant=%v, passes on the unchanged tree=%v (expected false/true)", n, onMutant, onOrig)
+				default:
+					row.note += fmt.Sprintf("\n     replay %d: go_test fails on the mutant and passes on the unchanged tree", n)
+				}
+			}
+		}
+		os.RemoveAll(mrepo)
 		internal = internal || code == 2
 		rows = append(rows, row)
 	}
@@ -207,6 +226,43 @@ func selftest(repo, verif, only string) int {
 	}
 	fmt.Println("govrac selftest: ok")
 	return 0
+}
+
+// runReplay injects the go_test_file of a replay into repo/geometry with -overlay and reports
+// whether the test passes.
+func runReplay(replayFile, repo, scratch string) (bool, error) {
+	b, err := os.ReadFile(replayFile)
+	if err != nil {
+		return false, err
+	}
+	var rep struct {
+		File string `json:"go_test_file"`
+	}
+	if err := json.Unmarshal(b, &rep); err != nil || rep.File == "" {
+		return false, fmt.Errorf("no go_test_file in %s", replayFile)
+	}
+	dir, err := os.MkdirTemp(scratch, "replay-")
+	if err != nil {
+		return false, err
+	}
+	defer os.RemoveAll(dir)
+	src := filepath.Join(dir, "zz_replay_test.go")
+	os.WriteFile(src, []byte(rep.File), 0o644)
+	pkg, _ := filepath.Abs(filepath.Join(repo, "geometry"))
+	ov, _ := json.Marshal(map[string]interface{}{"Replace": map[string]string{filepath.Join(pkg, "zz_replay_test.go"): src}})
+	ovFile := filepath.Join(dir, "overlay.json")
+	os.WriteFile(ovFile, ov, 0o644)
+	cmd := exec.Command("go", "test", "-overlay", ovFile, "-vet=off", "-count=1", "-timeout", "60s", "-run", "^TestGovracReplay$", ".")
+	cmd.Dir = pkg
+	cmd.Env = goEnv()
+	out, err := cmd.CombinedOutput()
+	if err == nil {
+		return true, nil
+	}
+	if strings.Contains(string(out), "[build failed]") || strings.Contains(string(out), "[setup failed]") {
+		return false, fmt.Errorf("replay does not compile: %s", lastLines(string(out), 8))
+	}
+	return false, nil
 }
 
 func lastLines(s string, n int) string {
